@@ -15,7 +15,7 @@
   * The recursion of Hash N-Degree Quads is unbounded in the Recommendation.  Lean needs a
     terminating definition: `fuel` bounds the nesting depth, `none` = fuel exhausted.  The
     Recommendation's result is the value obtained for any sufficient fuel (`Canon`, unique by
-    `Proofs.C04Fuel.canonFuel_mono`).  Every recursive call strictly extends the path issuer
+    `C04.spec_fuel_mono` / `C04.spec_result_unique`, proofs in Proofs/C04Fuel.lean).  Every recursive call strictly extends the path issuer
     with a blank node of the dataset, so `fuel = number of blank nodes + 1` suffices (not proved
     here; the vector test and the harness run with that value and never saw `none`).
 
